@@ -189,6 +189,9 @@ func (s *Synchronizer) Start(ctx context.Context) {
 // OnLocalTimeout is called when a local timeout happens.
 func (s *Synchronizer) OnLocalTimeout() {
 	s.logger.Debug("OnLocalTimeout")
+	// the timer of this view may still be running (a local timeout can also be forced by the timeouts
+	// of others, see OnRemoteTimeout and advanceView): replace it, do not add a second one.
+	s.stopTimeoutTimer()
 	s.startTimeoutTimer()
 	currentView := s.state.View()
 	if s.lastTimeout != nil && s.lastTimeout.View == currentView {
